@@ -258,6 +258,12 @@ func confTunnel(p confPlan) (*common.Fail, string) {
 			if _, err := knxnet.Unpack(buf[:n], &s); err != nil {
 				continue
 			}
+			if c := client.Load(); c != nil && c.Port != from.Port {
+				continue // a stray datagram of another process
+			}
+			if _, isConn := s.(*knxnet.ConnReq); !isConn && client.Load() == nil {
+				continue
+			}
 			client.Store(from)
 			// the gateway's automatic reactions
 			switch v := s.(type) {
